@@ -42,10 +42,11 @@ def _query(args):
   path, P, LMAX, H, K, name, tmo = args[:7]
   faults = args[7] if len(args) > 7 else False
   closers = args[8] if len(args) > 8 else 1
+  early = args[9] if len(args) > 9 else False
   sys.path.insert(0, VERIF)
   from pyts.model import Model, Unsupported
   try:
-    m = Model(path, P=P, LMAX=LMAX, H=H, faults=faults, closers=closers)
+    m = Model(path, P=P, LMAX=LMAX, H=H, faults=faults, closers=closers, early=early)
     r = m.bmc(K, name, timeout_s=tmo)
     r.update({"P": P, "H": H, "LMAX": LMAX, "closers": closers, "model_lines": m.model_lines()})
     return r
@@ -57,10 +58,11 @@ def _samples(args):
   path, P, LMAX, H, K, specs, seed = args[:7]
   faults = args[7] if len(args) > 7 else False
   closers = args[8] if len(args) > 8 else 1
+  early = args[9] if len(args) > 9 else False
   sys.path.insert(0, VERIF)
   import z3
   from pyts.model import Model, NOFAULT
-  m = Model(path, P=P, LMAX=LMAX, H=H, faults=faults, closers=closers)
+  m = Model(path, P=P, LMAX=LMAX, H=H, faults=faults, closers=closers, early=early)
   out = []
   for (w, choices, Ls, pin) in specs:
     def extra(mm, st, sc, w=w, choices=choices, Ls=Ls, pin=pin):
@@ -195,7 +197,9 @@ def main(a, seed):
   # handles it); the fault-free behaviours are the instances fault<p> = NOFAULT of the same queries
   cfgs = [dict(P=1, H=1, LMAX=2, Ks=(30, 36, 44), tmo=300, claim=True, faults=True),
           # a second thread closes the manager concurrently (terminate(), a with-block left in another thread, __del__)
-          dict(P=1, H=0, LMAX=1, Ks=(30, 36, 44), tmo=300, claim=True, closers=2, queries=QUERIES + ["final2"])]
+          dict(P=1, H=0, LMAX=1, Ks=(30, 36, 44), tmo=300, claim=True, closers=2, queries=QUERIES + ["final2"]),
+          # ... and a second thread that closes at ANY moment, also while play() is still at work
+          dict(P=1, H=0, LMAX=1, Ks=(30, 36, 44), tmo=300, claim=True, closers=2, early=True, queries=QUERIES + ["final2"])]
   if tier == "thorough":
     cfgs.append(dict(P=1, H=2, LMAX=2, Ks=(40, 48, 56), tmo=900, claim=True, faults=True))
     cfgs.append(dict(P=1, H=3, LMAX=1, Ks=(44, 52, 60), tmo=1200, claim=False))
@@ -217,11 +221,11 @@ def main(a, seed):
     def do_cfg(cfg):
       nonlocal validated
       P, H, LMAX = cfg["P"], cfg["H"], cfg["LMAX"]
-      FL = bool(cfg.get("faults")); CL = cfg.get("closers", 1)
+      FL = bool(cfg.get("faults")); CL = cfg.get("closers", 1); EA = bool(cfg.get("early"))
       try:
         with z3_lock:          # the z3 API is not thread-safe: this process only builds the model to report its size
-          m = Model(path, P=P, LMAX=LMAX, H=H, faults=FL, closers=CL)
-          nodes_info["P%dH%d%s" % (P, H, "C2" if CL == 2 else "")] = {"cfg_nodes": m.nodes_before_reduction, "after_reduction": m.nodes_total()}
+          m = Model(path, P=P, LMAX=LMAX, H=H, faults=FL, closers=CL, early=EA)
+          nodes_info["P%dH%d%s%s" % (P, H, "C2" if CL == 2 else "", "early" if EA else "")] = {"cfg_nodes": m.nodes_before_reduction, "after_reduction": m.nodes_total()}
           del m
       except Unsupported as e:
         inconcl.append({"clause": "translator", "why": "translator does not support the current source: %s" % e})
@@ -230,7 +234,7 @@ def main(a, seed):
       K = None
       if not cfg.get("hunt"):
         for k in cfg["Ks"]:
-          r = pool.apply(_query, ((path, P, LMAX, H, k, "longer", cfg["tmo"], FL, CL),))
+          r = pool.apply(_query, ((path, P, LMAX, H, k, "longer", cfg["tmo"], FL, CL, EA),))
           all_results.append(r)
           if r["result"] == "unsat":
             K = k; break
@@ -259,7 +263,7 @@ def main(a, seed):
       else:
         K = cfg["Ks"][0]
       # 2. the property queries, in parallel
-      jobs = [(path, P, LMAX, H, K, q, cfg["tmo"], FL, CL) for q in cfg.get("queries", QUERIES)]
+      jobs = [(path, P, LMAX, H, K, q, cfg["tmo"], FL, CL, EA) for q in cfg.get("queries", QUERIES)]
       for r in pool.imap_unordered(_query, jobs):
         all_results.append(r)
         if r["result"] == "unsat": continue
@@ -301,7 +305,7 @@ def main(a, seed):
         specs = specs[: (28 if tier == "quick" else 60)]
         chunks_ = [specs[i::4] for i in range(4)]
         runs = []
-        for part in pool.imap_unordered(_samples, [(path, P, LMAX, H, K, c, seed, FL, CL) for c in chunks_]):
+        for part in pool.imap_unordered(_samples, [(path, P, LMAX, H, K, c, seed, FL, CL, EA) for c in chunks_]):
           runs.extend(part)
         reps = _replay(repo, runs)
         for run, rep in zip(runs, reps):
